@@ -120,6 +120,22 @@ theorem C20_roundtrip_seg (total xfer idx : Nat) (isEnd : Bool) (chunk : Bytes)
       beNat_beBytes 4 xfer (by simpa using hx), beNat_beBytes 4 idx (by simpa using hi)]
     cases isEnd <;> simp
 
+/-- The limit of the segment round trip, as the code has it: a segment with `2^20 - 14` data octets
+    or more (possible only with `mtu - 4 ≥ 2^20`) gets a declared length that wrapped, so the
+    message the agent builds is not `exact` and does not decode to itself. The harness replays
+    such a transfer (MTU 2^20+8) on the implementation. -/
+theorem C20_seg_length_wraps_counterexample (total xfer idx : Nat) (isEnd : Bool) (chunk : Bytes)
+    (h : 2 ^ 20 ≤ chunk.length + 14) :
+    (mkMsg (if isEnd then 4 else 3) [(0, beBytes 4 total)]
+      (beBytes 4 xfer ++ (beBytes 4 idx ++ chunk))).exact = false := by
+  have hlen : (beBytes 4 xfer ++ (beBytes 4 idx ++ chunk)).length = chunk.length + 8 := by
+    simp; omega
+  have hlt : (6 + (chunk.length + 8)) % 2 ^ 20 < 2 ^ 20 := Nat.mod_lt _ (by decide)
+  have hne : ((6 + (chunk.length + 8)) % 2 ^ 20 == 6 + (chunk.length + 8)) = false := by
+    rw [beq_eq_false_iff_ne]; omega
+  simp only [mkMsg, List.map_cons, List.map_nil, normFlags, Msg.exact, hintsExact, hintsLen,
+    beBytes_length, hlen, hne, Bool.and_false, Bool.false_and]
+
 /-- Decoding any frame and re-encoding it reproduces the frame, whenever every declared length
     in it equals the actual length (`Msg.exact`; no truncation, proper H-flag chain). The padding
     is kept as it is. -/
@@ -140,13 +156,31 @@ example : decodeSet (segFrame 200 7 2 true [1, 2, 3]) =
 
 /-! ## Sending -/
 
-/-- `total_len < mtu - 4`: one frame, the Bundle PDU, `total_len + 4` octets. -/
-theorem C20_single (xfer : Nat) (data : Bytes) (mtu : Nat) (h : data.length + 4 < mtu) :
+/-- `total_len < mtu - 4` (or no MTU) and `total_len < 2^20`: one frame, the Bundle PDU,
+    `total_len + 4` octets. -/
+theorem C20_single (xfer : Nat) (data : Bytes) (mtu : Nat) (h : data.length + 4 < mtu)
+    (hl : data.length < 2 ^ 20) :
     sendTransfer xfer data (some mtu) = .ok [bundleFrame data] ∧
     sendTransfer xfer data none = .ok [bundleFrame data] ∧
     (bundleFrame data).length = data.length + 4 := by
-  refine ⟨by simp [sendTransfer, h], rfl, ?_⟩
+  have hnl : ¬ (2 ^ 20 ≤ data.length) := by omega
+  refine ⟨by simp only [sendTransfer, h, if_true, sendPdu, hnl, if_false],
+    by simp only [sendTransfer, sendPdu, hnl, if_false], ?_⟩
   rw [bundleFrame_length]; omega
+
+/-- A bundle that would go out as one PDU but has 2^20 octets or more does not fit the 20-bit
+    message length: `ValueError`, nothing is sent. -/
+theorem C20_too_long_fails (xfer : Nat) (data : Bytes) (mtu : Option Nat)
+    (hun : ∀ m, mtu = some m → data.length + 4 < m) (hl : 2 ^ 20 ≤ data.length) :
+    sendTransfer xfer data mtu = .failed ∧ framesSent xfer data mtu = [] := by
+  have h : sendTransfer xfer data mtu = .failed := by
+    cases mtu with
+    | none => simp only [sendTransfer, sendPdu, hl, if_true]
+    | some m => simp only [sendTransfer, hun m rfl, if_true, sendPdu, hl]
+  exact ⟨h, by simp only [framesSent, h]⟩
+
+example : (2 : Nat) ^ 20 ≤ (List.replicate (2 ^ 20) (1 : UInt8)).length := by
+  rw [List.length_replicate]; exact Nat.le_refl _
 
 /-- The segmented case with `mtu > 18`: the frames are the TransferSeg … TransferEnd messages of
     consecutive non-empty chunks with indices 0, 1, 2, …, exactly the last being the TransferEnd,
@@ -177,28 +211,57 @@ theorem C20_cover (xfer : Nat) (data : Bytes) (mtu : Nat) (hseg : mtu ≤ data.l
       rw [hc] at this; omega
     | _ :: _ :: _, _, _ => simp
 
-/-- `_send_transfer` either fails — exactly when the bundle is not sent as one PDU and
-    `mtu ≤ 18` (`remain_size ≤ 0`) — or every frame it yields is within the MTU. -/
+/-- When `_send_transfer` fails, exactly: the bundle would be one PDU of 2^20 octets or more, or
+    it needs segmenting and `mtu ≤ 18` (`remain_size ≤ 0`). -/
+theorem C20_fails_iff (xfer : Nat) (data : Bytes) (mtu : Nat) :
+    sendTransfer xfer data (some mtu) = .failed ↔
+      (data.length + 4 < mtu ∧ 2 ^ 20 ≤ data.length) ∨ (mtu ≤ data.length + 4 ∧ mtu ≤ 18) := by
+  by_cases hseg : data.length + 4 < mtu
+  · by_cases hl : 2 ^ 20 ≤ data.length
+    · simp only [sendTransfer, hseg, if_true, sendPdu, hl, true_and, true_or]
+    · have hv : sendTransfer xfer data (some mtu) = .ok [bundleFrame data] := by
+        simp only [sendTransfer, hseg, if_true, sendPdu, hl, if_false]
+      rw [hv]
+      constructor
+      · intro h; cases h
+      · rintro (⟨_, h⟩ | ⟨h, _⟩) <;> omega
+  · by_cases hmtu : mtu ≤ 18
+    · have hz : remainSize mtu ≤ 0 := by unfold remainSize headLenSeg; omega
+      simp only [sendTransfer, hseg, if_false, hz, if_true, true_iff]
+      exact Or.inr ⟨by omega, hmtu⟩
+    · have hz : ¬ (remainSize mtu ≤ 0) := by unfold remainSize headLenSeg; omega
+      have hv : ∃ fs, sendTransfer xfer data (some mtu) = .ok fs :=
+        ⟨_, by simp only [sendTransfer, hseg, if_false, hz]; rfl⟩
+      obtain ⟨fs, hv⟩ := hv
+      rw [hv]
+      constructor
+      · intro h; cases h
+      · rintro (⟨h, _⟩ | ⟨_, h⟩) <;> omega
+
+/-- `_send_transfer` either fails (see `C20_fails_iff`) or every frame it yields is within the
+    MTU. -/
 theorem C20_size (xfer : Nat) (data : Bytes) (mtu : Nat) :
-    (sendTransfer xfer data (some mtu) = .failed ∧ mtu ≤ data.length + 4 ∧ mtu ≤ 18) ∨
+    sendTransfer xfer data (some mtu) = .failed ∨
     ∃ frames, sendTransfer xfer data (some mtu) = .ok frames ∧ ∀ f ∈ frames, f.length ≤ mtu := by
-  by_cases hseg : mtu ≤ data.length + 4
-  · by_cases hmtu : 18 < mtu
-    · right
+  by_cases hf : sendTransfer xfer data (some mtu) = .failed
+  · exact Or.inl hf
+  · right
+    have hnf := (not_congr (C20_fails_iff xfer data mtu)).mp hf
+    by_cases hseg : mtu ≤ data.length + 4
+    · have hmtu : 18 < mtu := by
+        apply Nat.lt_of_not_le; intro h; exact hnf (Or.inr ⟨hseg, h⟩)
       obtain ⟨ps, hs, _, _, hall, _⟩ := C20_cover xfer data mtu hseg hmtu
       refine ⟨_, hs, ?_⟩
-      intro f hf
-      obtain ⟨p, hp, rfl⟩ := List.mem_map.mp hf
+      intro f hf'
+      obtain ⟨p, hp, rfl⟩ := List.mem_map.mp hf'
       rw [segFrame_length]; have := (hall p hp).2; omega
-    · left
-      have hz : remainSize mtu ≤ 0 := by unfold remainSize headLenSeg; omega
-      exact ⟨by simp only [sendTransfer, Nat.not_lt.mpr hseg, if_false, hz, if_true], hseg, by omega⟩
-  · right
-    have h : data.length + 4 < mtu := Nat.lt_of_not_le hseg
-    refine ⟨[bundleFrame data], (C20_single xfer data mtu h).1, ?_⟩
-    intro f hf
-    simp at hf; subst hf
-    rw [bundleFrame_length]; omega
+    · have h : data.length + 4 < mtu := Nat.lt_of_not_le hseg
+      have hl : data.length < 2 ^ 20 := by
+        apply Nat.lt_of_not_le; intro hl; exact hnf (Or.inl ⟨h, hl⟩)
+      refine ⟨[bundleFrame data], (C20_single xfer data mtu h hl).1, ?_⟩
+      intro f hf'
+      simp at hf'; subst hf'
+      rw [bundleFrame_length]; omega
 
 example : (match sendTransfer 7 (List.replicate 30 1) (some 30) with
     | .ok fs => fs.map List.length | .failed => []) = [30, 30, 24] := by decide
@@ -321,7 +384,7 @@ theorem C20_one_segment (total xfer : Nat) (chunk : Bytes) (chan addr : String) 
     delivered as one frame, in any order, to a receiver that has no entry for that transfer, queue
     exactly one copy of the bundle. -/
 theorem C20_end_to_end (xfer : Nat) (data : Bytes) (mtu : Nat) (chan addr : String) (s0 : Rx)
-    (hx : xfer < 2 ^ 32) (hlen : data.length < 2 ^ 32) (hmtu : 18 < mtu) (hmtu2 : mtu < 2 ^ 20)
+    (hx : xfer < 2 ^ 32) (hlen : data.length < 2 ^ 32) (hmtu : 18 < mtu) (hmtu2 : mtu < 2 ^ 20 + 4)
     (hseg : mtu ≤ data.length + 4) (h0 : getT ⟨chan, xfer⟩ s0.prog = none) :
     ∃ ps : List (Nat × Bool × Bytes),
       sendTransfer xfer data (some mtu) =
